@@ -1680,7 +1680,8 @@ pub fn outcome_for(prop: &'static str, run: &SimRun) -> Outcome {
     let trace_text = obs.trace.join("\n");
     out.trace_hash = hash_str(&trace_text);
     out.classes = obs.classes.iter().cloned().collect();
-    let abbreviated: Vec<&String> = obs.trace.iter().take(60).collect();
+    let full = std::env::var("VERIF_FULL_TRACE").is_ok();
+    let abbreviated: Vec<&String> = obs.trace.iter().take(if full { usize::MAX } else { 60 }).collect();
     out.summary = serde_json::json!({
         "steps": run.steps,
         "quiescent": run.quiescent,
